@@ -5,6 +5,7 @@ import (
 	"go/ast"
 	"go/token"
 	"sort"
+	"strconv"
 	"strings"
 )
 
@@ -19,8 +20,53 @@ func init() {
 			params: "(has_alias : bool)", retType: "bool", leaves: gk, types: gt}, "keyConf.Alias", 0)
 		o.condOf(funcSpec{dir: c, recv: "Config", name: "GetKey", coqName: "getkey_alias_dangling",
 			params: "(found : bool)", retType: "bool", leaves: gk, types: gt}, "ok", 1)
+		// the guard "the alias target is itself an alias" (second test of keyConf.Alias, inside the alias arm, refusing with an
+		// error). A tree without it is translated as the constant false: the model stays faithful and the idempotence theorems fail.
+		if gp, gfd := findFunc(c, "Config", "GetKey"); gfd != nil {
+			var conds []*ast.IfStmt
+			ast.Inspect(gfd.Body, func(n ast.Node) bool {
+				if is, ok := n.(*ast.IfStmt); ok && strings.Contains(printNode(gp.fset, is.Cond), "keyConf.Alias") {
+					conds = append(conds, is)
+				}
+				return true
+			})
+			switch {
+			case len(conds) == 1:
+				o.f("Definition getkey_alias_of_alias (has_alias no_token : bool) : bool :=\n  false.\n(* config:Config.GetKey has NO second test of keyConf.Alias: the entry an alias names is returned whatever its own alias says *)\n")
+			case len(conds) == 2 && conds[0].Pos() < conds[1].Pos() && conds[1].End() <= conds[0].End():
+				refuses := false
+				if k := len(conds[1].Body.List); k > 0 {
+					if rs, ok := conds[1].Body.List[k-1].(*ast.ReturnStmt); ok && len(rs.Results) == 2 && printNode(gp.fset, rs.Results[0]) == "nil" && printNode(gp.fset, rs.Results[1]) != "nil" {
+						refuses = true
+					}
+				}
+				if !refuses {
+					o.brokenDef("getkey_alias_of_alias", "the second test of keyConf.Alias in GetKey does not end in `return nil, <error>`")
+				} else {
+					o.condOf(funcSpec{dir: c, recv: "Config", name: "GetKey", coqName: "getkey_alias_of_alias",
+						params: "(has_alias no_token : bool)", retType: "bool", leaves: gk, types: gt}, "keyConf.Alias", 1)
+				}
+			default:
+				o.brokenDef("getkey_alias_of_alias", fmt.Sprintf("GetKey tests keyConf.Alias %d times, or not nested inside the alias arm", len(conds)))
+			}
+		} else {
+			o.brokenDef("getkey_alias_of_alias", "Config.GetKey not found")
+		}
+		// the token test is the LAST condition mentioning keyConf.Token (a guard inside the alias arm may mention it too)
+		nTok := 0
+		if gp, gfd := findFunc(c, "Config", "GetKey"); gfd != nil {
+			ast.Inspect(gfd.Body, func(n ast.Node) bool {
+				if is, ok := n.(*ast.IfStmt); ok && strings.Contains(printNode(gp.fset, is.Cond), "keyConf.Token") {
+					nTok++
+				}
+				return true
+			})
+		}
+		if nTok == 0 {
+			nTok = 1
+		}
 		o.condOf(funcSpec{dir: c, recv: "Config", name: "GetKey", coqName: "getkey_needs_token",
-			params: "(no_token : bool)", retType: "bool", leaves: gk, types: gt}, "keyConf.Token", 0)
+			params: "(no_token : bool)", retType: "bool", leaves: gk, types: gt}, "keyConf.Token", nTok-1)
 		const s = "server"
 		sl := map[string]string{`keyName == ""`: "no_key", `filename == ""`: "no_filename", "err != nil": "getkey_failed",
 			"userInfo.Allowed(keyConf)": "allowed", "mod == nil": "no_sigtype", "hash == 0": "bad_digest", "tok == nil": "no_token"}
@@ -56,6 +102,7 @@ func init() {
 		fingerprint("internal/authmodel", "", "fingerprint")
 		fingerprint("internal/authmodel", "", "New")
 		c04History(o)
+		c04Names(o)
 	}
 }
 
@@ -1028,6 +1075,681 @@ func c04History(o *out) {
 	o.c04Routes()
 	o.c04Inventory()
 	for _, fn := range [][3]string{{"internal/authmodel", "", "RequestInfo"}, {"internal/realip", "", "requestTrusted"}} {
+		fingerprint(fn[0], fn[1], fn[2])
+	}
+}
+
+// =====================================================================================================================
+// C04, key-name flow: which NAME and which configuration ENTRY every site between the HTTP handler and the code that
+// loads private key material uses.  For every anchored call the argument expression is traced back (through local
+// definitions, to parameters, the request, a map key, an RPC field, or a GetKey result) and emitted as a term of a
+// small expression language (nexpr = names, cexpr = configuration entries) that C04/Names.v evaluates.
+// Everything below is private to the C04 generator (prefix c04n).
+
+type c04nFn struct {
+	key    string
+	p      *pkgInfo
+	fd     *ast.FuncDecl
+	recv   string
+	params []string
+}
+
+func c04nLoad(dir, recv, name string) *c04nFn {
+	p, fd := findFunc(dir, recv, name)
+	if fd == nil {
+		return nil
+	}
+	f := &c04nFn{key: dir + ":" + recv + "." + name, p: p, fd: fd}
+	_, f.recv = c04RecvName(fd)
+	if fd.Type.Params != nil {
+		for _, fl := range fd.Type.Params.List {
+			for _, n := range fl.Names {
+				f.params = append(f.params, n.Name)
+			}
+		}
+	}
+	return f
+}
+
+func (f *c04nFn) txt(n ast.Node) string { return c04norm(printNode(f.p.fset, n)) }
+
+type c04nDef struct {
+	kind string // param assign rangekey rangeval var none
+	rhs  ast.Expr
+	idx  int
+	nlhs int
+	nrhs int
+	rng  *ast.RangeStmt
+	typ  string
+	pos  token.Pos
+	k    int
+}
+
+// lastDef: the definition of identifier `name` that textually precedes `before` (latest one); parameters otherwise
+func (f *c04nFn) lastDef(name string, before token.Pos) c04nDef {
+	best := c04nDef{kind: "none"}
+	take := func(d c04nDef) {
+		if d.pos < before && (best.kind == "none" || d.pos > best.pos) {
+			best = d
+		}
+	}
+	ast.Inspect(f.fd.Body, func(n ast.Node) bool {
+		switch x := n.(type) {
+		case *ast.AssignStmt:
+			if x.End() > before {
+				return true
+			}
+			for i, l := range x.Lhs {
+				if id, ok := l.(*ast.Ident); ok && id.Name == name {
+					d := c04nDef{kind: "assign", idx: i, nlhs: len(x.Lhs), nrhs: len(x.Rhs), pos: x.Pos()}
+					if len(x.Rhs) == len(x.Lhs) {
+						d.rhs = x.Rhs[i]
+					} else if len(x.Rhs) == 1 {
+						d.rhs = x.Rhs[0]
+					}
+					take(d)
+				}
+			}
+		case *ast.RangeStmt:
+			if id, ok := x.Key.(*ast.Ident); ok && id.Name == name {
+				take(c04nDef{kind: "rangekey", rng: x, pos: x.Pos()})
+			}
+			if id, ok := x.Value.(*ast.Ident); ok && id.Name == name {
+				take(c04nDef{kind: "rangeval", rng: x, pos: x.Pos()})
+			}
+		case *ast.DeclStmt:
+			if gd, ok := x.Decl.(*ast.GenDecl); ok && gd.Tok == token.VAR {
+				for _, s := range gd.Specs {
+					vs := s.(*ast.ValueSpec)
+					for i, id := range vs.Names {
+						if id.Name == name {
+							d := c04nDef{kind: "var", pos: x.Pos()}
+							if vs.Type != nil {
+								d.typ = f.txt(vs.Type)
+							}
+							if i < len(vs.Values) {
+								d.kind, d.rhs, d.nlhs, d.nrhs = "assign", vs.Values[i], 1, 1
+							}
+							take(d)
+						}
+					}
+				}
+			}
+		}
+		return true
+	})
+	if best.kind != "none" {
+		return best
+	}
+	for k, pn := range f.params {
+		if pn == name {
+			return c04nDef{kind: "param", k: k}
+		}
+	}
+	return best
+}
+
+func c04nIsConfigHolder(t string) bool {
+	return t == "cfg" || t == "config" || strings.HasSuffix(t, ".Config") || strings.HasSuffix(t, ".config")
+}
+
+// nameExpr: Coq term of type nexpr for a Go expression denoting a key name
+func (f *c04nFn) nameExpr(e ast.Expr, depth int) string {
+	if depth > 6 {
+		return "NUnknown"
+	}
+	switch x := e.(type) {
+	case *ast.ParenExpr:
+		return f.nameExpr(x.X, depth+1)
+	case *ast.Ident:
+		d := f.lastDef(x.Name, x.Pos())
+		switch d.kind {
+		case "param":
+			return "(NParam " + strconv.Itoa(d.k) + ")"
+		case "rangekey":
+			if c04nIsConfigHolder(strings.TrimSuffix(f.txt(d.rng.X), ".Keys")) && strings.HasSuffix(f.txt(d.rng.X), ".Keys") {
+				return "NMapKey"
+			}
+		case "assign":
+			if d.rhs != nil && (d.nlhs == d.nrhs || d.idx == 0) {
+				return f.nameExpr(d.rhs, depth+1)
+			}
+		}
+		return "NUnknown"
+	case *ast.CallExpr:
+		fun := f.txt(x.Fun)
+		if se, ok := x.Fun.(*ast.SelectorExpr); ok {
+			switch {
+			case se.Sel.Name == "Get" && len(x.Args) == 1 && f.txt(x.Args[0]) == `"key"` && f.isQuery(se.X, depth):
+				return "NReq"
+			case se.Sel.Name == "Name" && len(x.Args) == 0:
+				return "(NNameOf " + f.confExpr(se.X, depth+1) + ")"
+			}
+		}
+		if fun == "chi.URLParam" && len(x.Args) == 2 && f.txt(x.Args[1]) == `"key"` {
+			if id, ok := x.Args[0].(*ast.Ident); ok && f.lastDef(id.Name, id.Pos()).kind == "param" {
+				return "NReq"
+			}
+		}
+		return "NUnknown"
+	case *ast.SelectorExpr:
+		if id, ok := x.X.(*ast.Ident); ok && x.Sel.Name == "KeyName" {
+			if d := f.lastDef(id.Name, id.Pos()); d.kind == "var" && d.typ == "workerrpc.Request" {
+				return "NRpc"
+			}
+		}
+		if id, ok := x.X.(*ast.Ident); ok && x.Sel.Name == "Alias" {
+			return "(NAliasOf " + f.confExpr(id, depth+1) + ")"
+		}
+		return "NUnknown"
+	}
+	return "NUnknown"
+}
+
+// isQuery: e denotes <request parameter>.URL.Query()
+func (f *c04nFn) isQuery(e ast.Expr, depth int) bool {
+	switch x := e.(type) {
+	case *ast.Ident:
+		d := f.lastDef(x.Name, x.Pos())
+		return d.kind == "assign" && d.rhs != nil && d.nlhs == d.nrhs && depth < 6 && f.isQuery(d.rhs, depth+1)
+	case *ast.CallExpr:
+		se, ok := x.Fun.(*ast.SelectorExpr)
+		if !ok || se.Sel.Name != "Query" || len(x.Args) != 0 {
+			return false
+		}
+		u, ok := se.X.(*ast.SelectorExpr)
+		if !ok || u.Sel.Name != "URL" {
+			return false
+		}
+		id, ok := u.X.(*ast.Ident)
+		return ok && f.lastDef(id.Name, id.Pos()).kind == "param"
+	}
+	return false
+}
+
+// confExpr: Coq term of type cexpr for a Go expression denoting a *config.KeyConfig
+func (f *c04nFn) confExpr(e ast.Expr, depth int) string {
+	if depth > 6 {
+		return "CUnknown"
+	}
+	switch x := e.(type) {
+	case *ast.ParenExpr:
+		return f.confExpr(x.X, depth+1)
+	case *ast.Ident:
+		d := f.lastDef(x.Name, x.Pos())
+		switch d.kind {
+		case "param":
+			return "(CParam " + strconv.Itoa(d.k) + ")"
+		case "rangeval":
+			if strings.HasSuffix(f.txt(d.rng.X), ".Keys") {
+				if _, ok := d.rng.Key.(*ast.Ident); ok {
+					return "CMapVal"
+				}
+			}
+		case "assign":
+			if d.rhs != nil && (d.nlhs == d.nrhs || d.idx == 0) {
+				return f.confExpr(d.rhs, depth+1)
+			}
+		}
+		return "CUnknown"
+	case *ast.CallExpr:
+		se, ok := x.Fun.(*ast.SelectorExpr)
+		if !ok {
+			return "CUnknown"
+		}
+		switch {
+		case se.Sel.Name == "GetKey" && len(x.Args) == 1 && c04nIsConfigHolder(f.txt(se.X)):
+			return "(CGetKey " + f.nameExpr(x.Args[0], depth+1) + ")"
+		case se.Sel.Name == "Config" && len(x.Args) == 0:
+			// key.Config() where key is what <token parameter>.GetKey(...) returned
+			if id, ok := se.X.(*ast.Ident); ok {
+				if d := f.lastDef(id.Name, id.Pos()); d.kind == "assign" && d.rhs != nil && d.idx == 0 {
+					if ce, ok := d.rhs.(*ast.CallExpr); ok {
+						if s2, ok := ce.Fun.(*ast.SelectorExpr); ok && s2.Sel.Name == "GetKey" {
+							if tid, ok := s2.X.(*ast.Ident); ok && f.lastDef(tid.Name, tid.Pos()).kind == "param" {
+								return "CKeyConfig"
+							}
+						}
+					}
+				}
+			}
+		}
+		return "CUnknown"
+	case *ast.IndexExpr:
+		if strings.HasSuffix(f.txt(x.X), ".Keys") && c04nIsConfigHolder(strings.TrimSuffix(f.txt(x.X), ".Keys")) {
+			return "(CRaw " + f.nameExpr(x.Index, depth+1) + ")"
+		}
+		return "CUnknown"
+	case *ast.SelectorExpr:
+		if id, ok := x.X.(*ast.Ident); ok && id.Name == f.recv && f.recv != "" && (x.Sel.Name == "kconf" || x.Sel.Name == "keyConf") {
+			return "CField"
+		}
+		return "CUnknown"
+	}
+	return "CUnknown"
+}
+
+// tokenOf: e denotes <recv>.tokens[<conf>.Token]; returns the cexpr of <conf>
+func (f *c04nFn) tokenOf(e ast.Expr, depth int) string {
+	switch x := e.(type) {
+	case *ast.Ident:
+		d := f.lastDef(x.Name, x.Pos())
+		if d.kind == "assign" && d.rhs != nil && d.nlhs == d.nrhs && depth < 6 {
+			return f.tokenOf(d.rhs, depth+1)
+		}
+		if d.kind == "param" {
+			return "(CTokParam " + strconv.Itoa(d.k) + ")"
+		}
+	case *ast.IndexExpr:
+		if f.txt(x.X) == f.recv+".tokens" {
+			if se, ok := x.Index.(*ast.SelectorExpr); ok && se.Sel.Name == "Token" {
+				return f.confExpr(se.X, depth+1)
+			}
+		}
+	}
+	return "CUnknown"
+}
+
+func (f *c04nFn) calls(callee string, within ast.Node) []*ast.CallExpr {
+	var out []*ast.CallExpr
+	if within == nil {
+		within = f.fd.Body
+	}
+	ast.Inspect(within, func(n ast.Node) bool {
+		if ce, ok := n.(*ast.CallExpr); ok && f.txt(ce.Fun) == callee {
+			out = append(out, ce)
+		}
+		return true
+	})
+	return out
+}
+
+func (o *out) c04nEmit(coq, typ, term, comment string) {
+	o.f("Definition %s : %s := %s. (* %s *)\n", coq, typ, term, comment)
+}
+
+// c04nArg: the single call to `callee` in the function; argument `idx` as nexpr ("n"), cexpr ("c") or token selector ("t")
+func (o *out) c04nArg(f *c04nFn, where, callee string, idx int, kind, coq string, within ast.Node) {
+	if f == nil {
+		o.brokenDef(coq, "function "+where+" not found")
+		return
+	}
+	cs := f.calls(callee, within)
+	if len(cs) != 1 {
+		o.brokenDef(coq, "expected exactly one call to "+callee+" in "+f.key+", found "+strconv.Itoa(len(cs)))
+		return
+	}
+	if idx >= len(cs[0].Args) {
+		o.brokenDef(coq, "call to "+callee+" in "+f.key+" has fewer than "+strconv.Itoa(idx+1)+" arguments")
+		return
+	}
+	a := cs[0].Args[idx]
+	switch kind {
+	case "n":
+		o.c04nEmit(coq, "nexpr", f.nameExpr(a, 0), f.key+": "+f.txt(cs[0]))
+	case "c":
+		o.c04nEmit(coq, "cexpr", f.confExpr(a, 0), f.key+": "+f.txt(cs[0]))
+	case "t":
+		o.c04nEmit(coq, "cexpr", f.tokenOf(a, 0), f.key+": "+f.txt(cs[0])+" — the entry whose Token selects the token object")
+	}
+}
+
+// c04nLitField: field `field` of the single composite literal of type `typ` in the function
+func (o *out) c04nLitField(f *c04nFn, typ, field, kind, coq string) {
+	if f == nil {
+		o.brokenDef(coq, "function not found")
+		return
+	}
+	var lits []*ast.CompositeLit
+	ast.Inspect(f.fd.Body, func(n ast.Node) bool {
+		if cl, ok := n.(*ast.CompositeLit); ok && cl.Type != nil && f.txt(cl.Type) == typ {
+			lits = append(lits, cl)
+		}
+		return true
+	})
+	if len(lits) != 1 {
+		o.brokenDef(coq, "expected exactly one "+typ+"{...} literal in "+f.key+", found "+strconv.Itoa(len(lits)))
+		return
+	}
+	for _, el := range lits[0].Elts {
+		if kv, ok := el.(*ast.KeyValueExpr); ok && f.txt(kv.Key) == field {
+			if kind == "n" {
+				o.c04nEmit(coq, "nexpr", f.nameExpr(kv.Value, 0), f.key+": "+typ+"{"+field+": "+f.txt(kv.Value)+"}")
+			} else {
+				o.c04nEmit(coq, "cexpr", f.confExpr(kv.Value, 0), f.key+": "+typ+"{"+field+": "+f.txt(kv.Value)+"}")
+			}
+			return
+		}
+	}
+	o.brokenDef(coq, typ+" literal in "+f.key+" does not set "+field)
+}
+
+func c04nStackCodes(stack []string) []int {
+	var out []int
+	for _, s := range stack {
+		switch s {
+		case "open.Token":
+			out = append(out, 0)
+		case "tokencache.Metrics{}":
+			out = append(out, 1)
+		case "tokencache.NewLimiter":
+			out = append(out, 2)
+		case "tokencache.New":
+			out = append(out, 3)
+		default:
+			out = append(out, 99)
+		}
+	}
+	return out
+}
+
+func c04Names(o *out) {
+	o.f("\n(* ---- key-name flow part ---- *)\n")
+	o.f("Inductive nexpr : Type :=\n| NReq        (* the name in the request: query parameter / URL parameter \"key\" *)\n| NMapKey     (* the key of the range over Config.Keys *)\n| NRpc        (* KeyName of the decoded worker RPC request *)\n| NParam (k : Z)      (* k-th parameter of the enclosing function *)\n| NNameOf (c : cexpr) (* c.Name() *)\n| NAliasOf (c : cexpr) (* c.Alias *)\n| NUnknown\nwith cexpr : Type :=\n| CGetKey (n : nexpr)  (* config.GetKey(n) *)\n| CRaw (n : nexpr)     (* config.Keys[n], no alias resolution *)\n| CMapVal              (* the value of the range over Config.Keys (the entry stored under NMapKey) *)\n| CParam (k : Z)\n| CTokParam (k : Z)    (* only as a token selector: the token object is the k-th parameter *)\n| CField               (* the entry stored in the receiver (workerKey.kconf) *)\n| CKeyConfig           (* key.Config() of the key the token returned *)\n| CUnknown.\n")
+
+	// ---------------------------------------------------------------- server views
+	sign := c04nLoad("server", "Server", "serveSign")
+	o.c04nArg(sign, "serveSign", "s.Config.GetKey", 0, "n", "sign_getkey_arg", nil)
+	o.c04nArg(sign, "serveSign", "userInfo.Allowed", 0, "c", "sign_allowed_conf", nil)
+	o.c04nArg(sign, "serveSign", "signinit.Init", 2, "t", "sign_init_token", nil)
+	o.c04nArg(sign, "serveSign", "signinit.Init", 3, "n", "sign_init_name", nil)
+	view := c04nLoad("server", "Server", "serveGetKey")
+	o.c04nArg(view, "serveGetKey", "s.Config.GetKey", 0, "n", "view_getkey_arg", nil)
+	o.c04nArg(view, "serveGetKey", "userInfo.Allowed", 0, "c", "view_allowed_conf", nil)
+	o.c04nArg(view, "serveGetKey", "s.getKeyInfo", 1, "c", "view_info_conf", nil)
+	info := c04nLoad("server", "Server", "getKeyInfo")
+	o.c04nArg(info, "getKeyInfo", "signinit.InitKey", 1, "t", "info_init_token", nil)
+	o.c04nArg(info, "getKeyInfo", "signinit.InitKey", 2, "n", "info_init_name", nil)
+	list := c04nLoad("server", "Server", "serveListKeys")
+	o.c04nArg(list, "serveListKeys", "s.Config.GetKey", 0, "n", "list_getkey_arg", nil)
+	o.c04nArg(list, "serveListKeys", "userInfo.Allowed", 0, "c", "list_allowed_conf", nil)
+	o.c04nArg(list, "serveListKeys", "append", 1, "n", "list_appended_name", nil)
+	if list != nil { // the hide test in front of the resolution looks at the raw entry
+		var first ast.Expr
+		ast.Inspect(list.fd.Body, func(n ast.Node) bool {
+			if is, ok := n.(*ast.IfStmt); ok && first == nil {
+				if se, ok := is.Cond.(*ast.SelectorExpr); ok && se.Sel.Name == "Hide" {
+					first = se.X
+				}
+			}
+			return true
+		})
+		if first == nil {
+			o.brokenDef("list_skip_conf", "no `if <entry>.Hide` in serveListKeys")
+		} else {
+			o.c04nEmit("list_skip_conf", "cexpr", list.confExpr(first, 0), "serveListKeys: if "+list.txt(first)+".Hide { continue }")
+		}
+	}
+
+	// ---------------------------------------------------------------- signinit
+	ini := c04nLoad("internal/signinit", "", "Init")
+	o.c04nArg(ini, "signinit.Init", "InitKey", 1, "t", "init_initkey_token", nil)
+	o.c04nArg(ini, "signinit.Init", "InitKey", 2, "n", "init_initkey_name", nil)
+	ik := c04nLoad("internal/signinit", "", "InitKey")
+	o.c04nArg(ik, "signinit.InitKey", "tok.GetKey", 1, "n", "initkey_getkey_name", nil)
+	if ik != nil { // LoadTokenCertificates(key, kconf.X509Certificate, ...): argument 1 is <conf>.X509Certificate
+		cs := ik.calls("certloader.LoadTokenCertificates", nil)
+		if len(cs) == 1 && len(cs[0].Args) >= 2 {
+			if se, ok := cs[0].Args[1].(*ast.SelectorExpr); ok && se.Sel.Name == "X509Certificate" {
+				o.c04nEmit("initkey_x509_conf", "cexpr", ik.confExpr(se.X, 0), "signinit.InitKey: certificate file of "+ik.txt(se.X))
+			} else {
+				o.brokenDef("initkey_x509_conf", "second argument of LoadTokenCertificates is not <conf>.X509Certificate")
+			}
+		} else {
+			o.brokenDef("initkey_x509_conf", "no single LoadTokenCertificates call in InitKey")
+		}
+		// the entry InitKey returns (audit name, timestamp settings)
+		var ret ast.Expr
+		for _, st := range ik.fd.Body.List {
+			if rs, ok := st.(*ast.ReturnStmt); ok && len(rs.Results) == 3 {
+				ret = rs.Results[1]
+			}
+		}
+		if ret == nil {
+			o.brokenDef("initkey_returned_conf", "InitKey has no final three-value return")
+		} else {
+			o.c04nEmit("initkey_returned_conf", "cexpr", ik.confExpr(ret, 0), "signinit.InitKey returns "+ik.txt(ret))
+		}
+	}
+
+	// ---------------------------------------------------------------- token wrappers of the server (token/tokencache)
+	cache := c04nLoad("token/tokencache", "Cache", "GetKey")
+	o.c04nArg(cache, "Cache.GetKey", "c.Token.GetKey", 1, "n", "cache_inner_name", nil)
+	if cache != nil { // every index into c.keys
+		var idx []string
+		ast.Inspect(cache.fd.Body, func(n ast.Node) bool {
+			if ie, ok := n.(*ast.IndexExpr); ok && cache.txt(ie.X) == cache.recv+".keys" {
+				idx = append(idx, cache.nameExpr(ie.Index, 0))
+			}
+			return true
+		})
+		o.f("Definition cache_index_names : list nexpr := [%s]. (* tokencache:Cache.GetKey: every index into c.keys *)\n", strings.Join(idx, "; "))
+	} else {
+		o.brokenDef("cache_index_names", "Cache.GetKey not found")
+	}
+	o.c04nArg(c04nLoad("token/tokencache", "Metrics", "GetKey"), "Metrics.GetKey", "m.Token.GetKey", 1, "n", "metrics_inner_name", nil)
+	o.c04nArg(c04nLoad("token/tokencache", "RateLimited", "GetKey"), "RateLimited.GetKey", "r.Token.GetKey", 1, "n", "limiter_inner_name", nil)
+
+	// ---------------------------------------------------------------- real tokens
+	ft := c04nLoad("token/filetoken", "fileToken", "GetKey")
+	o.c04nArg(ft, "fileToken.GetKey", "tok.config.GetKey", 0, "n", "file_resolve_name", nil)
+	if ft != nil {
+		var mat ast.Expr
+		for _, callee := range []string{"ioutil.ReadFile", "os.ReadFile"} {
+			for _, ce := range ft.calls(callee, nil) {
+				if len(ce.Args) == 1 {
+					if se, ok := ce.Args[0].(*ast.SelectorExpr); ok && se.Sel.Name == "KeyFile" {
+						mat = se.X
+					}
+				}
+			}
+		}
+		if mat == nil {
+			o.brokenDef("file_material_conf", "fileToken.GetKey does not read <conf>.KeyFile")
+		} else {
+			o.c04nEmit("file_material_conf", "cexpr", ft.confExpr(mat, 0), "fileToken.GetKey reads the private key from "+ft.txt(mat)+".KeyFile")
+		}
+	}
+	o.c04nLitField(ft, "fileKey", "keyConf", "c", "file_key_conf")
+	p11 := c04nLoad("token/p11token", "Token", "GetKey")
+	o.c04nArg(p11, "p11token.GetKey", "token.config.GetKey", 0, "n", "p11_resolve_name", nil)
+	o.c04nArg(p11, "p11token.GetKey", "token.getKey", 0, "c", "p11_material_conf", nil)
+
+	// ---------------------------------------------------------------- worker (token/worker client, cmdline/workercmd handler)
+	wk := c04nLoad("token/worker", "WorkerToken", "GetKey")
+	o.c04nArg(wk, "WorkerToken.GetKey", "t.config.GetKey", 0, "n", "wk_resolve_name", nil)
+	o.c04nLitField(wk, "workerrpc.Request", "KeyName", "n", "wk_rpc_name")
+	o.c04nLitField(wk, "workerKey", "kconf", "c", "wk_key_conf")
+	ws := c04nLoad("token/worker", "workerKey", "SignContext")
+	o.c04nLitField(ws, "workerrpc.Request", "KeyName", "n", "wk_sign_name")
+	if wc := c04nLoad("token/worker", "workerKey", "Config"); wc != nil && len(wc.fd.Body.List) == 1 {
+		if rs, ok := wc.fd.Body.List[0].(*ast.ReturnStmt); ok && len(rs.Results) == 1 {
+			o.c04nEmit("wk_config_conf", "cexpr", wc.confExpr(rs.Results[0], 0), "workerKey.Config returns "+wc.txt(rs.Results[0]))
+		} else {
+			o.brokenDef("wk_config_conf", "workerKey.Config is not a single return")
+		}
+	} else {
+		o.brokenDef("wk_config_conf", "workerKey.Config not found or not a single statement")
+	}
+	wh := c04nLoad("cmdline/workercmd", "handler", "handle")
+	if wh == nil {
+		o.brokenDef("wh_getkey_name", "workercmd handler.handle not found")
+	} else {
+		found := map[string]bool{}
+		ast.Inspect(wh.fd.Body, func(n ast.Node) bool {
+			cc, ok := n.(*ast.CaseClause)
+			if !ok || len(cc.List) != 1 {
+				return true
+			}
+			switch wh.txt(cc.List[0]) {
+			case "workerrpc.GetKey":
+				found["g"] = true
+				o.c04nArg(wh, "handler.handle", "h.token.GetKey", 1, "n", "wh_getkey_name", cc)
+			case "workerrpc.Sign":
+				found["s"] = true
+				o.c04nArg(wh, "handler.handle", "h.token.GetKey", 1, "n", "wh_sign_name", cc)
+			}
+			return true
+		})
+		if !found["g"] {
+			o.brokenDef("wh_getkey_name", "no case workerrpc.GetKey in handler.handle")
+		}
+		if !found["s"] {
+			o.brokenDef("wh_sign_name", "no case workerrpc.Sign in handler.handle")
+		}
+	}
+
+	// ---------------------------------------------------------------- config: what Name() is
+	if nf := c04nLoad("config", "KeyConfig", "Name"); nf != nil && len(nf.fd.Body.List) == 1 {
+		rs, ok := nf.fd.Body.List[0].(*ast.ReturnStmt)
+		o.f("Definition keyconf_name_is_field : bool := %v. (* config:KeyConfig.Name is `return %s.name` *)\n", ok && len(rs.Results) == 1 && nf.txt(rs.Results[0]) == nf.recv+".name", nf.recv)
+	} else {
+		o.brokenDef("keyconf_name_is_field", "KeyConfig.Name not found or not a single statement")
+	}
+	if nz := c04nLoad("config", "Config", "Normalize"); nz != nil {
+		sets, others := false, 0
+		ast.Inspect(nz.fd.Body, func(n ast.Node) bool {
+			switch x := n.(type) {
+			case *ast.RangeStmt:
+				k, ok1 := x.Key.(*ast.Ident)
+				v, ok2 := x.Value.(*ast.Ident)
+				if ok1 && ok2 && nz.txt(x.X) == nz.recv+".Keys" {
+					for _, st := range x.Body.List {
+						if nz.txt(st) == v.Name+".name = "+k.Name {
+							sets = true
+						}
+					}
+				}
+			case *ast.AssignStmt:
+				for _, l := range x.Lhs {
+					if se, ok := l.(*ast.SelectorExpr); ok && se.Sel.Name == "name" {
+						others++
+					}
+				}
+			}
+			return true
+		})
+		o.f("Definition normalize_names_keys_by_map_key : bool := %v. (* config:Config.Normalize: for keyName, keyConf := range config.Keys { keyConf.name = keyName } *)\n", sets)
+		o.f("Definition normalize_name_assignments : Z := %d. (* assignments to a .name field in Normalize (token names, key names) *)\n", others)
+		def := ""
+		ast.Inspect(nz.fd.Body, func(n ast.Node) bool {
+			if as, ok := n.(*ast.AssignStmt); ok && len(as.Lhs) == 1 && len(as.Rhs) == 1 && strings.HasSuffix(nz.txt(as.Lhs[0]), ".Type") {
+				if bl, ok := as.Rhs[0].(*ast.BasicLit); ok {
+					def, _ = strconv.Unquote(bl.Value)
+				}
+			}
+			return true
+		})
+		o.f("Definition default_token_type : string := %s. (* config:Config.Normalize: a token without type gets this one *)\n", c04str(def))
+	} else {
+		o.brokenDef("normalize_names_keys_by_map_key", "Config.Normalize not found")
+	}
+	// GetKey: which map entry the alias step reads
+	gk := c04nLoad("config", "Config", "GetKey")
+	if gk == nil {
+		o.brokenDef("getkey_alias_lookup", "Config.GetKey not found")
+	} else {
+		var raws []string
+		var ret ast.Expr
+		ast.Inspect(gk.fd.Body, func(n ast.Node) bool {
+			switch x := n.(type) {
+			case *ast.AssignStmt:
+				if len(x.Rhs) == 1 {
+					if ie, ok := x.Rhs[0].(*ast.IndexExpr); ok && gk.txt(ie.X) == gk.recv+".Keys" {
+						raws = append(raws, gk.nameExpr(ie.Index, 0))
+					}
+				}
+			case *ast.ReturnStmt:
+				if len(x.Results) == 2 && gk.txt(x.Results[1]) == "nil" {
+					ret = x.Results[0]
+				}
+			}
+			return true
+		})
+		o.f("Definition getkey_map_lookups : list nexpr := [%s]. (* config:Config.GetKey: indexes into config.Keys, in source order *)\n", strings.Join(raws, "; "))
+		if ret == nil {
+			o.brokenDef("getkey_returns", "Config.GetKey has no `return <conf>, nil`")
+		} else {
+			o.c04nEmit("getkey_returns", "cexpr", gk.confExpr(ret, 0), "config:Config.GetKey returns the entry found LAST ("+gk.txt(ret)+")")
+		}
+	}
+
+	// ---------------------------------------------------------------- server.openTokens: which token types sit behind a worker; wrappers of the others
+	ot := c04nLoad("server", "Server", "openTokens")
+	if ot == nil {
+		o.brokenDef("open_worker_types", "Server.openTokens not found")
+	} else {
+		var workerTypes, stack []string
+		okShape := false
+		ast.Inspect(ot.fd.Body, func(n ast.Node) bool {
+			sw, ok := n.(*ast.SwitchStmt)
+			if !ok || sw.Tag == nil || ot.txt(sw.Tag) != "tconf.Type" {
+				return true
+			}
+			okShape = true
+			for _, st := range sw.Body.List {
+				cc := st.(*ast.CaseClause)
+				isWorker := len(ot.calls("worker.New", cc)) > 0
+				if cc.List == nil { // default
+					if isWorker {
+						workerTypes = append(workerTypes, "*")
+					}
+					ast.Inspect(cc, func(m ast.Node) bool {
+						switch y := m.(type) {
+						case *ast.CallExpr:
+							t := ot.txt(y.Fun)
+							if t == "open.Token" || strings.HasPrefix(t, "tokencache.") {
+								stack = append(stack, t)
+							}
+						case *ast.CompositeLit:
+							if y.Type != nil && strings.HasPrefix(ot.txt(y.Type), "tokencache.") {
+								stack = append(stack, ot.txt(y.Type)+"{}")
+							}
+						}
+						return true
+					})
+					continue
+				}
+				for _, e := range cc.List {
+					if bl, ok := e.(*ast.BasicLit); ok && isWorker {
+						s, _ := strconv.Unquote(bl.Value)
+						workerTypes = append(workerTypes, s)
+					} else if isWorker {
+						workerTypes = append(workerTypes, "?")
+					}
+				}
+			}
+			return false
+		})
+		if !okShape {
+			o.brokenDef("open_worker_types", "openTokens has no switch on tconf.Type")
+		} else {
+			o.c04StrList("open_worker_types", workerTypes, "server.openTokens: token types opened through token/worker (\"*\" = the default arm)")
+			o.f("Definition open_default_stack : list Z := %s. (* server.openTokens, default arm, source order, innermost first: %s ; codes: 0 open.Token, 1 tokencache.Metrics{}, 2 tokencache.NewLimiter, 3 tokencache.New (key cache), 99 anything else *)\n", c04ZList(c04nStackCodes(stack)), strings.Join(stack, ", "))
+		}
+	}
+	// worker process: wrappers around its token
+	if ph, fd := findFunc("cmdline/workercmd", "", "runWorker"); fd != nil {
+		var stack []string
+		ast.Inspect(fd.Body, func(m ast.Node) bool {
+			if y, ok := m.(*ast.CallExpr); ok {
+				t := c04norm(printNode(ph.fset, y.Fun))
+				if t == "open.Token" || strings.HasPrefix(t, "tokencache.") {
+					stack = append(stack, t)
+				}
+			}
+			if y, ok := m.(*ast.CompositeLit); ok && y.Type != nil && strings.HasPrefix(c04norm(printNode(ph.fset, y.Type)), "tokencache.") {
+				stack = append(stack, c04norm(printNode(ph.fset, y.Type))+"{}")
+			}
+			return true
+		})
+		o.f("Definition worker_process_stack : list Z := %s. (* cmdline/workercmd runWorker, innermost first: %s ; same codes *)\n", c04ZList(c04nStackCodes(stack)), strings.Join(stack, ", "))
+	} else {
+		o.brokenDef("worker_process_stack", "cmdline/workercmd: runWorker not found")
+	}
+	for _, fn := range [][3]string{{"internal/signinit", "", "Init"}, {"internal/signinit", "", "InitKey"}, {"server", "Server", "getKeyInfo"},
+		{"token/filetoken", "fileToken", "GetKey"}, {"token/tokencache", "Cache", "GetKey"}, {"token/worker", "WorkerToken", "GetKey"},
+		{"token/worker", "workerKey", "SignContext"}, {"cmdline/workercmd", "handler", "handle"}, {"server", "Server", "openTokens"}, {"config", "KeyConfig", "Name"}} {
 		fingerprint(fn[0], fn[1], fn[2])
 	}
 }
